@@ -131,3 +131,43 @@ func ZvC03_S2_PairsByKey() {
 	vrt.Assert(got == want, "C03/S2/Pairs/conserve")
 	vrt.Assert(h.Size() == 0, "C03/S2/Pairs/drained")
 }
+
+// ZvC03_LongRun: one long scenario beyond the size bound — 60 concrete values (with duplicates)
+// pushed in a scrambled order into a min- or max-heap (depth 6), Peek/Pop drained completely:
+// comparator order, conservation and Size at every step; then FromSlice + Sort of the same values.
+// Values are concrete, so nothing forks.
+func ZvC03_LongRun() {
+	const N = 60
+	kind := vrt.Choice(2)
+	comp := zvS2Comp(kind)
+	h := NewHeap(comp)
+	var vals []int
+	count := map[int]int{}
+	for i := 0; i < N; i++ {
+		v := (i*37 + 11) % 41 // 0..40, some values twice
+		vals = append(vals, v)
+		count[v]++
+		h.Push(v)
+		vrt.Assert(h.Size() == i+1, "C03/long-run/Size-while-growing")
+	}
+	prev := 0
+	for i := 0; i < N; i++ {
+		pk := h.Peek()
+		r := h.Pop()
+		vrt.Assert(pk == r, "C03/long-run/Peek-is-next-Pop")
+		if i > 0 {
+			vrt.Assert(!comp(r, prev), "C03/long-run/drain-in-comparator-order")
+		}
+		count[r]--
+		vrt.Assert(count[r] >= 0, "C03/long-run/never-returns-unheld")
+		vrt.Assert(h.Size() == N-1-i, "C03/long-run/Size-while-draining")
+		prev = r
+	}
+	vrt.Assert(vrt.And(h.IsEmpty(), h.Pop() == 0), "C03/long-run/empty-at-the-end")
+	sorted := Sort(append([]int(nil), vals...), comp)
+	ok := len(sorted) == N
+	for i := 0; i+1 < len(sorted); i++ {
+		ok = ok && !comp(sorted[i], sorted[i+1])
+	}
+	vrt.Assert(ok, "C03/long-run/Sort-orders-oppositely-to-the-comparator")
+}
